@@ -22,3 +22,5 @@ func loadReplayCases[T any](path string) []T {
 	}
 	return r.Cases
 }
+
+func jsonUnmarshal(b []byte, v interface{}) error { return json.Unmarshal(b, v) }
